@@ -62,7 +62,7 @@ func SplitChunks(fset *token.FileSet, f *ast.File, src []byte) ([]Chunk, bool) {
 }
 
 // PaddingKinds are the inserted declarations.
-var PaddingKinds = []string{"blank", "var", "emptyfunc", "bodiless", "closurefunc", "type", "comment"}
+var PaddingKinds = []string{"blank", "var", "emptyfunc", "bodiless", "closurefunc", "type", "gotovar", "busyfunc", "gotovar", "busyfunc", "gotovar", "busyfunc", "methodtype", "initfunc", "constblock", "genericfunc", "comment"}
 
 func paddingLines(kind string, n int) []string {
 	switch kind {
@@ -78,6 +78,24 @@ func paddingLines(kind string, n int) []string {
 		return []string{"", fmt.Sprintf("func vpad%d() {", n), "\t_ = func() {}", "}", ""}
 	case "type":
 		return []string{"", fmt.Sprintf("type vpad%d struct{}", n), ""}
+	case "gotovar":
+		// a package-level function value whose body has labels, goto, defer, loops and a return
+		return []string{"", fmt.Sprintf("var vpad%d = func(n int) int {", n), "again:", "\tif n > 3 {", "\t\tn--", "\t\tgoto again", "\t}",
+			"\tdefer func() { _ = recover() }()", "outer:", "\tfor i := 0; i < n; i++ {", "\t\tfor j := 0; j < i; j++ {", "\t\t\tif j == 2 {", "\t\t\t\tcontinue outer", "\t\t\t}", "\t\t}", "\t}", "\treturn n", "}", ""}
+	case "busyfunc":
+		return []string{"", fmt.Sprintf("func vpad%d(xs []int, m map[string]int, ch chan int) (res int, err error) {", n), "\tdefer func() { err = nil }()",
+			"\tswitch {", "\tcase len(xs) > 2:", "\t\tres++", "\t\tfallthrough", "\tdefault:", "\t\tres--", "\t}",
+			"\tselect {", "\tcase v := <-ch:", "\t\tres += v", "\tdefault:", "\t}",
+			"\tfor k, v := range m {", "\t\tif k == \"\" {", "\t\t\tbreak", "\t\t}", "\t\tres += v", "\t}",
+			"lbl:", "\tfor _, x := range xs {", "\t\tif x < 0 {", "\t\t\tgoto done", "\t\t}", "\t\tif x == 0 {", "\t\t\tbreak lbl", "\t\t}", "\t}", "done:", "\treturn", "}", ""}
+	case "methodtype":
+		return []string{"", fmt.Sprintf("type vpad%d struct{ n int }", n), "", fmt.Sprintf("func (v vpad%d) Get() int   { return v.n }", n), fmt.Sprintf("func (v *vpad%d) Set(n int) { v.n = n }", n), ""}
+	case "initfunc":
+		return []string{"", "func init() {", "\tgoto end", "end:", "}", ""}
+	case "constblock":
+		return []string{"", "const (", fmt.Sprintf("\tvpad%da = iota", n), fmt.Sprintf("\tvpad%db", n), fmt.Sprintf("\tvpad%dc = \"x\"", n), ")", ""}
+	case "genericfunc":
+		return []string{"", fmt.Sprintf("func vpad%d[T any, U comparable](x T, y U) (T, bool) { var z U; return x, y == z }", n), ""}
 	case "comment":
 		return []string{"", "", "// vpad: an unrelated, well-formed comment.", "", ""}
 	}
@@ -118,7 +136,7 @@ func DrawTransform(t *rapid.T, chunks []Chunk) ([]Chunk, Transformation) {
 	var padded []Chunk
 	n := 0
 	for i, c := range out {
-		if i > 0 && rapid.IntRange(0, 3).Draw(t, "pad") == 0 {
+		if i > 0 && rapid.IntRange(0, 2).Draw(t, "pad") == 0 {
 			kind := PaddingKinds[rapid.IntRange(0, len(PaddingKinds)-1).Draw(t, "padkind")]
 			n++
 			padded = append(padded, Chunk{Lines: paddingLines(kind, n), Padding: true, Orig: -1})
